@@ -120,4 +120,57 @@ def tfHandleKey (P : TfProg) (cl : List A → List (List A)) (tf : TF A) (ev : K
   | some (env', _) => (tfOfEnv env').map (·, logOf (getV env' "log"))
   | none => none
 
+/-! ### textinput.Model -/
+
+structure TiProg where
+  setContent : Fn
+  update : Fn
+  resegment : Fn
+
+abbrev tiKeys : List String := ["m.content", "m.cursor", "m.offset", "m.paste"]
+
+open VaxisModel.Model.TextInputCl (TIC) in
+def envOfTI (m : TIC A) : Env A :=
+  [("m.content", .chars m.content), ("m.cursor", .num m.cursor), ("m.offset", .num m.offset), ("m.paste", .str m.paste)]
+
+open VaxisModel.Model.TextInputCl (TIC) in
+def tiOfEnv (env : Env A) : Option (TIC A) :=
+  match getV env "m.content", getV env "m.cursor", getV env "m.offset", getV env "m.paste" with
+  | .chars c, .num cur, .num off, .str p => some ⟨c, cur, off, p⟩
+  | _, _, _, _ => none
+
+def tiCx0 (cl : List A → List (List A)) (isAlnum : List A → Bool) : Ctx A := ⟨cl, isAlnum, fun _ _ _ => none⟩
+
+/-- layer 0: `resegment` -/
+def tiCall0 (P : TiProg) (cl : List A → List (List A)) (isAlnum : List A → Bool) (f : String) (args : List (V A)) (env : Env A) :
+    Option (Env A × V A) :=
+  if f = "resegment" then callMethod (tiCx0 cl isAlnum) tiKeys P.resegment args env else none
+
+def tiCx1 (P : TiProg) (cl : List A → List (List A)) (isAlnum : List A → Bool) : Ctx A := ⟨cl, isAlnum, tiCall0 P cl isAlnum⟩
+
+open VaxisModel.Model.TextInputCl (Ev) in
+/-- The event as `Update` sees it: dynamic type, `EventType`, `Text`, `String()`, the modifier tests. -/
+def evEnv : Ev A → Env A
+  | .pasteEnd => [("p0.type", .name "vaxis.PasteEndEvent")]
+  | .release => [("p0.type", .name "vaxis.Key"), ("p0.EventType", .name "vaxis.EventRelease")]
+  | .pasteKey t => [("p0.type", .name "vaxis.Key"), ("p0.EventType", .name "vaxis.EventPaste"), ("p0.Text", .str t)]
+  | .key s c a sup t =>
+    [("p0.type", .name "vaxis.Key"), ("p0.EventType", .name "vaxis.EventPress"), ("p0.Text", .str t), ("p0.String()", .name s),
+     ("p0.mod.ModCtrl", .bool c), ("p0.mod.ModAlt", .bool a), ("p0.mod.ModSuper", .bool sup)]
+  | .other => [("p0.type", .name "other")]
+
+open VaxisModel.Model.TextInputCl (TIC Ev) in
+/-- `Update` through the translated bodies (`none`: a run-time panic — or a statement without meaning). -/
+def tiUpdate (P : TiProg) (cl : List A → List (List A)) (isAlnum : List A → Bool) (m : TIC A) (ev : Ev A) : Option (TIC A) :=
+  match runFn (tiCx1 P cl isAlnum) P.update (envOfTI m ++ evEnv ev) [.opaque] with
+  | some (env', _) => tiOfEnv env'
+  | none => none
+
+open VaxisModel.Model.TextInputCl (TIC) in
+/-- `SetContent` through the translated body. -/
+def tiSetContent (P : TiProg) (cl : List A → List (List A)) (isAlnum : List A → Bool) (m : TIC A) (s : List A) : Option (TIC A) :=
+  match runFn (tiCx0 cl isAlnum) P.setContent (envOfTI m) [.str s] with
+  | some (env', _) => tiOfEnv env'
+  | none => none
+
 end VaxisModel.Model.EdRun
